@@ -30,7 +30,8 @@ PROPERTIES = ["C20"]
 PID = "C20"
 SPEC_DIR = os.path.join(vlib.SPEC, "mmanager")
 
-VERDICT_PROPS = ["AtMostOneReply", "SendsAtMostOne", "AnnounceOK", "AnnounceToHeld", "QuiescentAllReplied", "NoHang"]
+VERDICT_PROPS = ["AtMostOneReply", "SendsAtMostOne", "AnnounceOK", "AnnounceToHeld", "QuiescentAllReplied",
+                 "ChainQuietAllReplied", "NoHang", "StepCompletes"]
 
 ASSUMPTIONS = [
     "a reply is what the submitter receives: the return of Service.Submit; replies as written by the manager are "
@@ -301,7 +302,7 @@ def _printed(out, prefix):
 
 def validate(recs, work, tag, max_submit=None):
     """Run ManifestManagerTrace on the records. Returns (viols [(line index, prop)], drifts [(line index)], TLCResult)."""
-    lines = [r for r in recs if not r.get("timeout")]
+    lines = list(recs)
     if not lines:
         return [], [], None
     nsub = 1
@@ -433,7 +434,8 @@ def judge_script(vh, steps, work, tag, cfg, given_recs=None):
             recs = isolate(vh, steps, work, "%s-r%d" % (tag, attempt), cfg["step_ms"], cfg["hang_ms"])
         viols, drifts, _ = validate(recs, work, "%s-v%d" % (tag, attempt))
         timeouts = [r for r in recs if r.get("timeout")]
-        hang = [(r, p) for r, p in viols if p in ("NoHang", "QuiescentAllReplied") and r.get("missing")]
+        hang = [(r, p) for r, p in viols if (p in ("NoHang", "QuiescentAllReplied", "ChainQuietAllReplied") and
+                                             any(x.get("missing") for x in recs if x["i"] <= r["i"])) or p == "StepCompletes"]
         hard = [(r, p) for r, p in viols if (r, p) not in hang]
         if hard:
             return [(p, r, recs) for r, p in hard], None
@@ -447,7 +449,7 @@ def judge_script(vh, steps, work, tag, cfg, given_recs=None):
             recs = None      # first sighting of a hang / timeout: once more, alone, doubled timeouts
             continue
         if hang:
-            return [(p, r, recs) for r, p in hang], None
+            return [(p, r, recs) for r, p in hang], None   # reproduced alone, with doubled timeouts
         t = timeouts[0]
         if t["name"] in ("Submit", "SubmitSw") and t["timeout"].startswith(("hook manifest", "reply of a stopping manager")):
             return [("NoHang", t, recs)], None      # the submission itself was never taken up / answered
@@ -570,7 +572,10 @@ def run(pid, tier, seed, replay_path):
             for p, r, srecs in found:
                 reported[p] = reported.get(p, 0) + 1
                 upto = steps[:r["i"]]
-                violations.append(vlib.Violation(PID, sig_of(p, upto),
+                sig = sig_of(p, upto)
+                if p == "StepCompletes":
+                    sig = "hang:%s:%s" % (r["name"], r.get("where", "").split(" in ")[-1])
+                violations.append(vlib.Violation(PID, sig,
                                                  "%s fails after step %d %s(%s) of script %s\nobserved: %s" % (
                                                      p, r["i"], r["name"], r["arg"], upto, json.dumps(r)),
                                                  {"script.json": json.dumps({"steps": upto}),
